@@ -21,7 +21,12 @@ theorem aspectSlice_def (v : ViewBox ℚ) (dx dy ax ay : ℚ) :
     v.aspectSlice dx dy ax ay =
       (let r := (v.maxX - v.minX) / (v.maxY - v.minY)
        let p : ℚ × ℚ := if dx / dy < r then (dy * r, dy) else (dx, dx / r)
-       ((dx - p.1) * ax, (dy - p.2) * ay, (dx - p.1) * ax + p.1, (dy - p.2) * ay + p.2)) := rfl
+       ((dx - p.1) * ax, (dy - p.2) * ay, dx - (dx - p.1) * (((1 : Int) : ℚ) - ax),
+        dy - (dy - p.2) * (((1 : Int) : ℚ) - ay))) := rfl
+
+/-- at exact arithmetic the far edge measured from the target's far edge is the near edge plus the size -/
+theorem far_edge (d p a : ℚ) : d - (d - p) * (((1 : Int) : ℚ) - a) = (d - p) * a + p := by
+  simp only [Int.cast_one]; ring
 
 theorem aspectMeet_eq (v : ViewBox ℚ) (dx dy ax ay : ℚ) :
     v.aspectMeet dx dy ax ay =
@@ -50,8 +55,8 @@ theorem aspectSlice_eq (v : ViewBox ℚ) (dx dy ax ay : ℚ) :
          (dy - dx / ((v.maxX - v.minX) / (v.maxY - v.minY))) * ay + dx / ((v.maxX - v.minX) / (v.maxY - v.minY)))) := by
   rw [aspectSlice_def]
   by_cases h : dx / dy < (v.maxX - v.minX) / (v.maxY - v.minY)
-  · simp only [if_pos h]
-  · simp only [if_neg h]
+  · simp only [if_pos h, far_edge]
+  · simp only [if_neg h, far_edge]
 
 /-- the fitted size `(w, h)`: closed form of both functions.  `meet` picks the smaller rectangle. -/
 theorem meet_cases (v : ViewBox ℚ) (dx dy ax ay : ℚ)
